@@ -230,15 +230,26 @@ def owned_rows(unit, mrow):
     return own, member_decl
 
 
-def enclosing_loop(unit, sid, parent_of, row_of, want=("while_stmt", "for_stmt", "forin_stmt", "for_value_stmt", "dowhile_stmt")):
-    cur = parent_of.get(sid)
+def enclosing_loop(unit, sid, parent_of, row_of, want=("while_stmt", "for_stmt", "forin_stmt", "for_value_stmt", "dowhile_stmt"),
+                   else_clause_of=None):
+    """The nearest statement of a kind in `want` that sid is nested in. The else clause of a loop (Python while/for ... else)
+    is not part of the loop: a loop is skipped when sid hangs in its else_body. else_clause_of: optional list that receives
+    the loops skipped for that reason."""
+    child, cur = sid, parent_of.get(sid)
     while cur is not None:
         r = row_of.get(cur)
         if r is not None and r.get("operation") in want:
-            return r
+            blk = row_of.get(child, {}).get("parent_stmt_id")
+            eb = r.get("else_body")
+            in_else = eb is not None and eb == eb and blk is not None and int(eb) == int(blk) and r.get("operation") != "if_stmt" \
+                and r.get("operation") in ("while_stmt", "for_stmt", "forin_stmt", "for_value_stmt", "dowhile_stmt")
+            if not in_else:
+                return r
+            if else_clause_of is not None:
+                else_clause_of.append(r)
         if r is not None and r.get("operation") == "method_decl":
             return None
-        cur = parent_of.get(cur)
+        child, cur = cur, parent_of.get(cur)
     return None
 
 
@@ -327,14 +338,18 @@ def analyse_batch(job):
     ms = lianrun.rows_as_dicts(pd.read_feather(os.path.join(wsd, "frontend", "module_symbols")))
     unit_of = {os.path.basename(r["unit_path"]): int(r["unit_id"]) for r in ms if r.get("unit_id") is not None and not r.get("is_extern")}
     rows_by_unit = {}
+    op_of_any = {}
     for r in gir:
         rows_by_unit.setdefault(int(r.get("unit_id", -1)), []).append(r)
+        if r.get("operation") not in ("block_start", "block_end"):
+            op_of_any[r.get("stmt_id")] = r.get("operation")
     cfg = {}
     if cfgdf is not None:
         for r in lianrun.rows_as_dicts(cfgdf):
             cfg.setdefault(int(r["method_id"]), {}).setdefault(int(r["src_stmt_id"]), set()).add(int(r["dst_stmt_id"]))
     res = {"lang": lang, "handlers": reached, "fails": [], "pairs": 0, "activations": 0, "vectors": 0, "validated": 0,
            "unvalidated": 0, "vm_errors": {}, "programs": 0, "distinct": 0, "opseen": {}, "no_gt": 0}
+    judged_units = set()
     node_gt = None
     if lang not in ("python", "java", "c"):
         # javascript, typescript: the analysed text itself; php, go: the JavaScript twin
@@ -531,7 +546,16 @@ def analyse_batch(job):
                     c0 = culprit(tr[0]) or culprit(tr[0], before=True)
                     problems.append((("cfg-does-not-read:" + c0) if c0 else f"node-missing:{desc_a(tr[0])}", tr[0], None))
                 elif tr[0] not in indeg0:
-                    problems.append((f"first-statement-not-an-entry-node:{desc_a(tr[0])}", tr[0], None))
+                    # lian's entry nodes are the nodes without predecessor (util.find_cfg_first_nodes seeds the P2/P3 worklists)
+                    mr = methods[mid]
+                    body_rows = vm.units[0].blocks.get(int(mr["body"]), []) if mr.get("body") is not None else []
+                    params = vm.units[0].blocks.get(int(mr["parameters"]), []) if mr.get("parameters") is not None else []
+                    loop_first = not params and body_rows and body_rows[0].get("operation") in (
+                        "while_stmt", "for_stmt", "forin_stmt", "for_value_stmt", "dowhile_stmt")
+                    # a loop as the very first statement of a method without parameters: its first executed statement is the
+                    # target of the loop's back edge (or of the do-while's own LOOP_TRUE edge), so no node without predecessor marks it
+                    problems.append(("first-statement-not-an-entry-node:parameterless-method-starts-with-loop" if loop_first else
+                                     f"first-statement-not-an-entry-node:{desc_a(tr[0])}", tr[0], None))
                 steps = list(zip(tr, tr[1:], range(1, len(tr))))
                 if getattr(fr, "ended", "normal") == "normal":
                     steps.append((tr[-1], -1, len(tr)))
@@ -540,6 +564,13 @@ def analyse_batch(job):
                     if b in g.get(a, ()) or via_members(a, b) or a == b:
                         continue      # (a == b: an empty-bodied loop re-testing itself; lian's graphs carry no self loops)
                     tags = fr.notes.get(idx)
+                    if not tags and row_of.get(a, {}).get("operation") in ("break_stmt", "continue_stmt"):
+                        skipped = []
+                        enclosing_loop(unit_probe, a, parent_of, row_of, else_clause_of=skipped)
+                        if skipped:
+                            # a break / continue in the else clause of a loop belongs to an enclosing loop
+                            problems.append(("jump-in-loop-else-clause-lost:" + row_of[a]["operation"], a, b))
+                            continue
                     unread = None if tags else (culprit(b) if b != -1 else None) or culprit(a) or \
                         (culprit(b, before=True) if b != -1 and b not in nodes else None) or (culprit(a, before=True) if a not in nodes else None)
                     if tags:
@@ -566,11 +597,13 @@ def analyse_batch(job):
                     res["opseen"][k] = res["opseen"].get(k, 0) + 1
                 seen_case.add(tuple(tr))
         res["distinct"] += sum(1 for t in seen_case if len(t) >= 3)
-        # static clauses, once per program
-        for mid, mrow in methods.items():
+        # static clauses, once per program, for every method of it (executed or not, helper methods like `out` included)
+        judged_units.add(u)
+        for mid, mrow in [(r["stmt_id"], r) for r in rows if r.get("operation") == "method_decl"]:
             g = cfg.get(mid)
             if g is None:
                 continue
+            res["owned"] = res.get("owned", 0) + 1
             if mid not in own_cache:
                 own_cache[mid] = owned_rows(unit_probe, mrow)
             own, members = own_cache[mid]
@@ -582,9 +615,12 @@ def analyse_batch(job):
                 # a block marker as a node: the statement owning the block was walked through as if it were straight-line code
                 owner = parent_of.get(("b", alien[0])) if alien[0] in unit_probe.blocks else None
                 unread = culprit(owner) if owner is not None else None
-                res["fails"].append((("cfg-does-not-read:" + unread) if unread else f"alien-node:{row_of.get(alien[0], {}).get('operation')}",
+                res["alien_methods"] = res.get("alien_methods", 0) + 1
+                res["fails"].append((("cfg-does-not-read:" + unread) if unread else f"alien-node:{op_of_any.get(alien[0])}",
                                      f"CFG of {mrow.get('name')} contains node {alien[0]} that is " +
-                                     ("a block marker, not a statement" if owner is not None else "not part of the method"),
+                                     ("a block marker, not a statement" if owner is not None else
+                                      f"not part of the method (a {op_of_any.get(alien[0])} of " +
+                                      ("another method of the file" if alien[0] in row_of else "a method of another file of the batch") + ")"),
                                      {"lang": lang, "src": text, "label": label}))
             for n in nodes:
                 op = row_of.get(n, {}).get("operation")
@@ -603,6 +639,31 @@ def analyse_batch(job):
                             res["fails"].append(("continue-wrong-target:" + ("inside-switch" if inner_sw else "other"),
                                                  f"continue_stmt {n} is wired to {bad} outside its loop {loop['stmt_id']}",
                                                  {"lang": lang, "src": text, "label": label}))
+    # "no statement of another method" also for the methods of the other units of the run (the frontends' extern mock files):
+    # whatever the analysis of one method leaves behind in the process shows up in the methods analysed after it
+    for u2, rows2 in rows_by_unit.items():
+        if u2 in judged_units:
+            continue
+        unit2 = None
+        for mrow in rows2:
+            if mrow.get("operation") != "method_decl" or cfg.get(mrow["stmt_id"]) is None:
+                continue
+            if unit2 is None:
+                unit2 = girvm.Unit(u2, rows2, lang)
+            g = cfg[mrow["stmt_id"]]
+            own, _ = owned_rows(unit2, mrow)
+            nodes = set(g.keys())
+            for ds in g.values():
+                nodes |= ds
+            res["owned"] = res.get("owned", 0) + 1
+            alien = sorted(n for n in nodes if n != -1 and n not in own and n not in unit2.blocks)
+            if alien:
+                res["alien_methods"] = res.get("alien_methods", 0) + 1
+                res["fails"].append((f"alien-node:{op_of_any.get(alien[0])}",
+                                     f"CFG of {mrow.get('name')} (a method of a file lian adds to the project) contains node {alien[0]}: "
+                                     f"a {op_of_any.get(alien[0])} of a method of another file of the batch",
+                                     {"lang": lang, "src": progs[0][2], "label": progs[0][1], "note": "whole batch needed: see the batch tag",
+                                      "batch": tag}))
     # each child removes its own sources / workspace / compiler output (the parent's single rmtree at exit took a minute under load)
     import shutil
     for d in (src_dir, ws, st, os.path.join(sc, tag)):
@@ -637,7 +698,8 @@ def main():
         per_lang = []
         for lang in LANGS:
             only = gen_cf.LANG_KINDS.get(lang)
-            sk = gen_cf.systematic_skeletons(lang, only=only)
+            # programs of parameterless procedures first: whatever their analysis leaves behind meets every later method of the batch
+            sk = gen_cf.starter_skeletons(lang) + gen_cf.systematic_skeletons(lang, only=only)
             nrand = N_RANDOM[lang][1 if thorough else 0]
             base = rng.randrange(1 << 30)
             for i in range(nrand):
@@ -672,6 +734,8 @@ def main():
         chk.count(f"{lang}: activations checked", v["activations"])
         chk.count("consecutive statement pairs compared with CFG edges", v["pairs"])
         chk.count("programs without ground truth (node failed)", v["no_gt"])
+        chk.count(f"{lang}: methods whose CFG nodes were checked for belonging to the method", v.get("owned", 0))
+        chk.count("methods whose CFG contains a statement of another method", v.get("alien_methods", 0))
         for k, n in v["handlers"].items():
             handlers[k] = handlers.get(k, 0) + n
         for k, n in v["opseen"].items():
